@@ -164,6 +164,20 @@ func (in *Interp) connWrite(fr *frame, dst Value, s Str) Value {
 				return Iface{}
 			}
 		}
+		// a writer type of the code under test wrapped around the connection: run its Write
+		if it, ok := dst.(Iface); ok && it.T != nil {
+			// (concrete data only: chunking a symbolic-length buffer makes symbolic slice offsets)
+			if _, conc := s.Concrete(); !conc {
+				in.unsupported("write of symbolic data through the user-defined writer %v", it.T)
+			}
+			if f := in.P.Prog.LookupMethod(it.T, nil, "Write"); f != nil && f.Blocks != nil && in.canInterpret(f) {
+				res := in.call(fr, f, []Value{it.V, SymBytes{s: s}}, nil, false)
+				if tup, ok := res.(Tuple); ok && len(tup) == 2 {
+					return tup[1]
+				}
+				return Iface{}
+			}
+		}
 		in.unsupported("write to unknown writer %v", dst)
 	}
 	if t != nil {
@@ -333,6 +347,10 @@ func registerEnvIntrinsics() {
 	I["(*sync.Mutex).Unlock"] = func(in *Interp, fr *frame, args []Value) (Value, bool) {
 		o := in.sideObj(args[0], "mutex")
 		if o.n == 0 {
+			// a fatal runtime error, not a panic: recover() does not stop it, the process dies
+			tp := &targetPanic{v: CStr("fatal error: sync: unlock of unlocked mutex"), site: fr.where(), kind: "fatal", src: fr.srcLine()}
+			in.crashes = append(in.crashes, tp)
+			in.emit("CRASH", "fatal", tp.site, "sync: unlock of unlocked mutex")
 			fr.tpanic("explicit", CStr("sync: unlock of unlocked mutex"))
 		}
 		o.n = 0
@@ -723,6 +741,44 @@ func registerEnvIntrinsics() {
 		in.bufioTouch(fr, o, "Write")
 		if e, bad := o.F["err"]; bad {
 			return Tuple{Int(0), e}, true // bufio.Writer errors are sticky
+		}
+		// the destination is a writer type of the code under test and the data concrete: follow
+		// bufio.Writer.Write literally, honouring the byte counts that writer returns
+		if raw, _ := in.rawConn(o.F["dst"]); raw == nil {
+			if data, conc := s.Concrete(); conc {
+				if bl, ok := o.str.ConcreteLen(); ok && bl == 0 {
+					if it, ok := o.F["dst"].(Iface); ok && it.T != nil {
+						if f := in.P.Prog.LookupMethod(it.T, nil, "Write"); f != nil && f.Blocks != nil && in.canInterpret(f) {
+							nn := 0
+							p := data
+							for len(p) > bufSize(o) {
+								res := in.call(fr, f, []Value{it.V, SymBytes{s: CStr(p)}}, nil, false)
+								tup, _ := res.(Tuple)
+								if len(tup) != 2 {
+									in.unsupported("user writer returned %T", res)
+								}
+								n := in.concreteInt(fr, tup[0], "user Write count")
+								if n < 0 || n > len(p) {
+									fr.tpanic("explicit", CStr("bufio: writer returned invalid count from Write"))
+								}
+								nn += n
+								p = p[n:]
+								if !isNilValue(tup[1]) {
+									o.F["err"] = tup[1]
+									return Tuple{Int(nn), tup[1]}, true
+								}
+								if n == 0 {
+									e := in.newError(CStr("short write"), nil)
+									o.F["err"] = e
+									return Tuple{Int(nn), e}, true
+								}
+							}
+							o.str = CStr(p)
+							return Tuple{Int(nn + len(p)), Iface{}}, true
+						}
+					}
+				}
+			}
 		}
 		// a write larger than the buffer, on an empty buffer, goes straight to the connection
 		if n, ok := o.str.ConcreteLen(); ok && n == 0 {
